@@ -5,5 +5,5 @@ cp /repo/$file /tmp/mut.orig.$$
 sed -i "$expr" /repo/$file
 if cmp -s /repo/$file /tmp/mut.orig.$$; then echo "MUTATION DID NOT APPLY"; fi
 (cd /repo && git diff --stat -- $file | tail -1)
-/verif/bin/govc -prop $prop 2>&1 | grep -v "^==" | tail -8
+${GOVC:-/verif/bin/govc} -out /tmp/mut.ev.json -replays /tmp/mut.replays -known /verif/KNOWN_FINDINGS.txt -prop $prop 2>&1 | grep -v "^==" | tail -8
 cp /tmp/mut.orig.$$ /repo/$file; rm -f /tmp/mut.orig.$$
